@@ -461,7 +461,7 @@ func (w *w3World) setup() {
 	{
 		var nms []string
 		for nm, p := range w.P {
-			if len(p.Pub) > 0 && w.BC.GetUtilityTokenBalance(p.Hash).Sign() == 0 {
+			if len(p.Pub) > 0 && w.BC.GetUtilityTokenBalance(p.Hash).Cmp(big.NewInt(10_000_0000_0000)) < 0 {
 				nms = append(nms, nm)
 			}
 		}
@@ -889,9 +889,12 @@ type w3SigSet struct {
 	// SenderEntry): being the sender of a transaction is not a witness.
 	Sender      *w3Princ
 	SenderEntry bool
+	// SenderNoneViaHelper: the sender signs with scope None and the call is
+	// nevertheless made through the forwarding helper.
+	SenderNoneViaHelper bool
 }
 
-func (s w3SigSet) viaHelper() bool { return len(s.Entry) > 0 || s.SenderEntry }
+func (s w3SigSet) viaHelper() bool { return len(s.Entry) > 0 || s.SenderEntry || s.SenderNoneViaHelper }
 
 func (w *w3World) signerSets(call *w3Call, rng *rand.Rand, nRandom int) []w3SigSet {
 	var sets []w3SigSet
@@ -956,6 +959,18 @@ func (w *w3World) signerSets(call *w3Call, rng *rand.Rand, nRandom int) []w3SigS
 	}
 	for _, nm := range []string{"member0", "ir-member", "neofs-member"} {
 		sets = append(sets, w3SigSet{Name: nm + " with scope None", Unscoped: []*w3Princ{w.princ(nm)}})
+	}
+	// a MEMBER of one of the key lists (committee, Inner Ring, NeoFS stored
+	// list) is the SENDER of the transaction, with a scope that does not cover
+	// the call: directly with scope None, and through the forwarding helper
+	// with scope CalledByEntry / None
+	if call.Via == "" {
+		for _, nm := range []string{"member0", "ir-member", "neofs-member"} {
+			p := w.princ(nm)
+			sets = append(sets, w3SigSet{Name: "sender:" + nm + " with scope None, stranger with Global", Sender: p, Ps: []*w3Princ{w.princ("stranger")}})
+			sets = append(sets, w3SigSet{Name: "sender:" + nm + " with scope CalledByEntry, through a foreign contract", Sender: p, SenderEntry: true})
+			sets = append(sets, w3SigSet{Name: "sender:" + nm + " with scope None, through a foreign contract", Sender: p, SenderNoneViaHelper: true})
+		}
 	}
 	// the named principal is the SENDER of the transaction (first signer, pays
 	// the fees) with a scope that covers nothing; somebody else is the caller
@@ -1050,7 +1065,7 @@ func (w *w3World) signerSets(call *w3Call, rng *rand.Rand, nRandom int) []w3SigS
 			hs = append(hs, "entry:"+p.Hash.StringLE())
 		}
 		if s.Sender != nil {
-			hs = append(hs, fmt.Sprintf("sender:%s:%v", s.Sender.Hash.StringLE(), s.SenderEntry))
+			hs = append(hs, fmt.Sprintf("sender:%s:%v:%v", s.Sender.Hash.StringLE(), s.SenderEntry, s.SenderNoneViaHelper))
 		}
 		sort.Strings(hs)
 		k := strings.Join(hs, ",")
@@ -1241,7 +1256,9 @@ func (w *w3World) runCall(o *w3Out, v *w3Variant, call *w3Call, set w3SigSet, re
 			fh := w.H["caller"]
 			caller = &fh
 			tx0 = w.E.NewUnsignedTx(w.T, fh, "call", h, v.M, call.Args)
-			scope = transaction.CalledByEntry
+			if !set.SenderNoneViaHelper {
+				scope = transaction.CalledByEntry
+			}
 		} else {
 			tx0 = w.E.NewUnsignedTx(w.T, h, v.M, call.Args...)
 		}
@@ -1291,7 +1308,9 @@ func (w *w3World) runCall(o *w3Out, v *w3Variant, call *w3Call, set w3SigSet, re
 	}
 	if set.Sender != nil {
 		sc := "None"
-		if set.viaHelper() {
+		if set.SenderNoneViaHelper {
+			sc = "None, via a foreign contract"
+		} else if set.viaHelper() {
 			sc = "CalledByEntry, via a foreign contract"
 		}
 		names = append([]string{set.Sender.Name + "(SENDER, scope " + sc + ")"}, names...)
